@@ -66,30 +66,35 @@ IsOci == g.kind = "oci"
 \* A stray blob file (dropped under blobs/ by the environment, leaf nodes only)
 \* makes the node present for Exists / Fetch / Push / Tag: the layout is keyed by digest.
 Present == content \cup stray
-St(res, C, T, Ix, S) == [res |-> res, content |-> C, tags |-> T, indexed |-> Ix, stray |-> S]
-Same(res) == St(res, content, tags, indexed, stray)
-Expect(r) ==
+\* the expectation as a function of an explicit state (C content, T tags, Ix indexed, S stray), so that the
+\* concurrent-tail judgement can run every order of a set of operations through it
+ExpectOn(C, T, Ix, S, r) ==
+  LET P == C \cup S
+      St(res, c, t, ix, s) == [res |-> res, content |-> c, tags |-> t, indexed |-> ix, stray |-> s]
+      Same(res) == St(res, C, T, Ix, S)
+  IN
   CASE r.op = "pushbad" ->     \* bytes that do not match the descriptor: refused, nothing changes
-         IF r.n \in Present THEN Same(IF g.kind = "file" /\ g.names[r.n] # "" THEN "dupname" ELSE "exists") ELSE Same("refused")
+         IF r.n \in P THEN Same(IF g.kind = "file" /\ g.names[r.n] # "" THEN "dupname" ELSE "exists") ELSE Same("refused")
     [] r.op = "push" ->
-         IF r.n \in Present THEN Same(IF g.kind = "file" /\ g.names[r.n] # "" THEN "dupname" ELSE "exists")
-         ELSE St("ok", content \cup {r.n}, tags, IF IsOci /\ IsMan(r.n) THEN indexed \cup {r.n} ELSE indexed, stray)
+         IF r.n \in P THEN Same(IF g.kind = "file" /\ g.names[r.n] # "" THEN "dupname" ELSE "exists")
+         ELSE St("ok", C \cup {r.n}, T, IF IsOci /\ IsMan(r.n) THEN Ix \cup {r.n} ELSE Ix, S)
     [] r.op = "tag" ->
-         IF r.n \notin Present THEN Same("notfound")
-         ELSE St("ok", content, [tags EXCEPT ![r.ref] = r.n], IF IsOci THEN indexed \cup {r.n} ELSE indexed, stray)
+         IF r.n \notin P THEN Same("notfound")
+         ELSE St("ok", C, [T EXCEPT ![r.ref] = r.n], IF IsOci THEN Ix \cup {r.n} ELSE Ix, S)
     [] r.op = "untag" ->
-         IF tags[r.ref] = 0 THEN Same("notfound")
-         ELSE St("ok", content, [tags EXCEPT ![r.ref] = 0], indexed, stray)
+         IF T[r.ref] = 0 THEN Same("notfound")
+         ELSE St("ok", C, [T EXCEPT ![r.ref] = 0], Ix, S)
     [] r.op = "delete" ->
-         IF r.n \notin Present THEN Same("notfound")
-         ELSE LET T1 == [q \in Refs |-> IF tags[q] = r.n THEN 0 ELSE tags[q]]
-                  D1 == IF g.autogc /\ r.n \in content THEN DelSet({r.n}, content, T1) ELSE {r.n}
-              IN St("ok", content \ D1, T1, indexed \ D1, stray \ D1)
+         IF r.n \notin P THEN Same("notfound")
+         ELSE LET T1 == [q \in Refs |-> IF T[q] = r.n THEN 0 ELSE T[q]]
+                  D1 == IF g.autogc /\ r.n \in C THEN DelSet({r.n}, C, T1) ELSE {r.n}
+              IN St("ok", C \ D1, T1, Ix \ D1, S \ D1)
     [] r.op = "gc" ->
-         LET x == GCResult(Present, tags, indexed) IN
+         LET x == GCResult(P, T, Ix) IN
          \* a stray file that GC keeps (it is reachable) is ordinary content from then on
-         St("ok", Present \cap x.live, tags, Tagged(tags) \cup x.kept, {})
-    [] r.op = "stray" -> St("ok", content, tags, indexed, stray \cup {r.n})
+         St("ok", P \cap x.live, T, Tagged(T) \cup x.kept, {})
+    [] r.op = "stray" -> St("ok", C, T, Ix, S \cup {r.n})
     [] OTHER -> Same("n/a")
+Expect(r) == ExpectOn(content, tags, indexed, stray, r)
 
 =============================================================================
